@@ -32,6 +32,9 @@ func init() {
 }
 
 func runC16(w *World, r *Report) {
+	hrGzipWholeBody(w, r, "R2")
+	hrContentEncodingFallback(w, r, "R2")
+	hrConstructorKeepsExclusions(w, r, "R3")
 	hrYAMLTagsMatchFields(w, r, "R3", "lunar/shared-model/config", "ObfuscationExclusions")
 	hrObfuscationHelpers(w, r, "R2")
 	ic := w.Fn(pkgObf, "isCursorInExcludedPath")
